@@ -79,6 +79,7 @@ class StorageReplayer:
         # concretisation parameter outside the model: model oid n <-> real oid n * stride (stride 65537 spreads the
         # objects over different 6-byte prefixes, i.e. several buckets of the two-level oid index)
         self.stride = int(self.opts.get('oid_stride', 1))
+        self.real_max = 0
 
     def P(self, o):
         return p64(o * self.stride)
@@ -156,6 +157,8 @@ class StorageReplayer:
             raise _Blocked()
         old_handler = signal.signal(signal.SIGALRM, _blocked)
         signal.setitimer(signal.ITIMER_REAL, self.opts.get('step_timeout', 8))
+        if action in ('Store', 'StoreQuota', 'Restore', 'Delete') and len(args) >= 2:
+            self.real_max = max(self.real_max, int(norm(args[1])) * self.stride)
         try:
             if action == 'Init':
                 pass
@@ -252,8 +255,18 @@ class StorageReplayer:
                 finally:
                     self.fault_hit = faultfs.S.failed
                     faultfs.S.fail_at = None
-            elif action == 'NewOid' and self.stride != 1:
+            elif action == 'NewOid' and self.stride != 1 and not self.opts.get('stride_new_oid'):
                 pass
+            elif action == 'NewOid' and self.stride != 1:
+                # oids spread over several index buckets: the expectation is the same rule (largest oid seen + 1)
+                # on the concrete numbers; the model's own number is not comparable
+                oid = st.new_oid()
+                want_oid = self.real_max + 1
+                if u64(oid) != want_oid:
+                    extra['oid'] = ('real', u64(oid))
+                    res = dict(res, oid=('real', want_oid))
+                self.real_max = max(self.real_max, u64(oid))
+                self._monitor_oid(oid)
             elif action == 'NewOid':
                 oid = st.new_oid()
                 extra['oid'] = self.U(oid)
@@ -262,6 +275,7 @@ class StorageReplayer:
                 st.close()
                 self.issued = set()
                 self.open(create=False)
+                self.real_max = int(norm(state['maxOid'])) * self.stride
             else:
                 raise RuntimeError('replayer does not know action %s' % action)
         except E.ReadConflictError:
